@@ -201,6 +201,15 @@ func runC08(c *core.Ctx, drv string, idx int) {
 			st.Rows = append(st.Rows, v)
 		}
 		atts = append(atts, attempt{st: st, feature: "long_text_multibyte", text: textCase && model.StmtTextOK(st)})
+		// rows that are equal in every column except for the blanks inside
+		// the string: statement texts that differ in nothing else
+		twin := base()
+		for _, w := range []string{"a b", "a  b", "a\tb", " a b", "a b ", "ab"} {
+			v := append([]proto.Val(nil), twin...)
+			v[vi] = proto.Str(w)
+			st := &proto.Stmt{Kind: "insert", Table: "t", Rows: [][]proto.Val{v}}
+			atts = append(atts, attempt{st: st, feature: "whitespace_twins", text: textCase && model.StmtTextOK(st)})
+		}
 	}
 	if vi >= 0 {
 		for _, over := range []int{0, 1, -1, 37} {
